@@ -15,6 +15,10 @@ QUERIES = [
 UNSOL = ["echo:busy: processing", " T:21.3 /0.0 B:20.1 /0.0 @:0 B@:0", "[MSG:Pgm End]",
          "echo:Unknown command: \"foo\"", "wait", "//action:notification idle",
          "<Run|MPos:1.000,2.000,3.000|FS:100,0>"]
+UNSOL_READINGS = {
+    "T:21.3 /0.0 B:20.1 /0.0 @:0 B@:0": {"T": 21.3, "B": 20.1},
+    "<Run|MPos:1.000,2.000,3.000|FS:100,0>": {"X": 1.0, "Y": 2.0, "Z": 3.0, "F": 100.0, "S": 0.0},
+}
 ERRS = ["error:20", "error:9", "ALARM:1", "!! Printer halted", "Error:Printer halted. kill() called!",
         "error: checksum mismatch", "alarm:2", "ERROR:1"]
 GREETINGS = ["start", "Grbl 1.1h ['$' for help]", "", "start\necho:Marlin 2.1.2"]
@@ -24,14 +28,18 @@ def gen(seed, run, sub="clean", tier="quick"):
     r = common.rng_for(seed, run, "c16/" + sub)
     transport = r.choice(["serial", "serial", "socket"])
     n = r.choice([1, 2, 3, 4, 6, 8, 12, 25]) if tier == "thorough" else r.choice([1, 2, 3, 4, 6, 10])
-    stmts, replies = [], {}
+    stmts, replies, readings = [], {}, {}
     for i in range(n):
         u = r.random()
         if u < 0.2:
             q, rep = r.choice(QUERIES)
             text = "%s ; q%d" % (q, i) if q != "?" else "? ;q%d" % i
             x, y, z = (round(r.uniform(-500, 500), r.choice([0, 1, 3])) for _ in range(3))
-            replies[str(i)] = [rep.format(x=x, y=y, z=z), "ok"]
+            line = rep.format(x=x, y=y, z=z)
+            replies[str(i)] = [line, "ok"]
+            readings[line] = ({"X": x, "Y": y, "Z": z, "E": 0.0} if q == "M114" else
+                              {"T": x, "B": y} if q == "M105" else
+                              {"X": x, "Y": y, "Z": z, "F": 0.0, "S": 0.0})
         else:
             text = "G1 X%d Y%s F%d" % (i, r.choice(["0", "-1.5", "12.25"]), 100 + i)
         stmts.append(text)
@@ -39,6 +47,12 @@ def gen(seed, run, sub="clean", tier="quick"):
     for i in range(n):
         if r.random() < err_rate:
             replies[str(i)] = [r.choice(ERRS)]
+    # a statement the device takes very long to acknowledge (homing, heating): longer than the
+    # writer's 30 s default time-out, or than a time-out the caller configured
+    slow = {}
+    if r.random() < 0.2:
+        slow[str(r.randrange(n))] = round(r.choice([31.0, 45.0, 90.0]) + r.random(), 3)
+    timeout = r.choice([0.3, 1.0, 5.0]) if (sub == "clean" and r.random() < 0.25) else None
     draws = common.gen_draws(r)
     if transport == "socket":
         fr = r.choice([0, 1, 2, 3, 7, 64])
@@ -70,7 +84,12 @@ def gen(seed, run, sub="clean", tier="quick"):
     half = None
     if sub == "clean" and n >= 3 and r.random() < 0.15:
         half = r.randrange(1, n)
+    if timeout is not None and half is None:
+        ops.append(["timeout", timeout])
+    idle_err_at = r.randrange(n) if (sub == "clean" and n >= 2 and r.random() < 0.15) else None
     for i in range(n):
+        if idle_err_at is not None and i == idle_err_at and i > 0:
+            ops.append(["idle_error", r.choice(["ALARM:1", "error:9", "!! spindle fault", "Alarm:3"])])
         if half is not None and i == half:
             ops.append(["disconnect", True])
             ops.append(["connect"])
@@ -82,6 +101,7 @@ def gen(seed, run, sub="clean", tier="quick"):
     return {
         "lane": "c16", "sub": sub, "transport": transport, "via": via, "cfg": cfg,
         "stmts": stmts, "replies": replies, "faults": faults, "ops": ops, "draws": draws,
+        "readings": dict(readings, **UNSOL_READINGS), "slow": slow,
         "eol": r.choice(["\n", "\r\n", ""]), "max_steps": 60000,
         "sched": common.gen_sched(r, "%s/%s/c16" % (seed, run), est_steps=300 + 250 * n),
     }
@@ -111,6 +131,8 @@ def execute(scn, guide=None, keep=False, observer=None):
             return None
         return replies.get(str(i))
     fw.reply_hook = reply_hook
+    slow = scn.get("slow") or {}
+    fw.lat_hook = lambda idx, text: float(slow.get(str(index_of.get(text.strip(), -1)), 0.0))
 
     by_rx = {}
     for f in scn.get("faults", []):
@@ -226,6 +248,19 @@ def execute(scn, guide=None, keep=False, observer=None):
                                  type(e).__name__))
                     if lost["fired"]:
                         state["stopped_after_loss"] = True
+            elif op[0] == "timeout":
+                w.set_timeout(op[1])
+                k.ev("set-timeout", op[1])
+            elif op[0] == "idle_error":
+                # an error/alarm line pushed by the device while the host is idle
+                common.quiesce(k, env)
+                n0 = len(hostmsgs)
+                fw.unsolicited(op[1])
+                common.quiesce(k, env)
+                if any(t == op[1].strip() for (_, t, _) in hostmsgs[n0:]):
+                    hist.append(("idle-error", None, k.ev("idle-error", op[1]), op[1]))
+                else:
+                    k.ev("idle-error-not-delivered", op[1])
             elif op[0] == "settle":
                 common.quiesce(k, env)
                 k.ev("settled")
@@ -377,6 +412,19 @@ def check(scn, k, fw, hist, state, lost, DeviceError, hostmsgs, ackhist, relaxed
                 break
             if acted[j] is not None:
                 host_done[e["seq"]] = acted[j]
+
+    # ---- an error/alarm line the host processed while idle is raised by the next write()
+    for h in hist:
+        if h[0] != "idle-error":
+            continue
+        nxt = [c for c in calls if c["call"] > h[2] and c["out"] is not None]
+        # only within the same session: connect() starts with a clean error slate
+        if nxt and any(x[0] in ("disc-call", "connect-call") and h[2] < x[2] < nxt[0]["call"] for x in hist):
+            continue
+        if nxt and not (nxt[0]["kind"] == "raise" and isinstance(nxt[0]["exc"], DeviceError)):
+            V("idle-error-swallowed", stmt=nxt[0]["i"], line=h[3])
+        elif nxt:
+            k.probe("c16.idle_error_raised_by_next_write")
 
     # ---- D3 mechanism: handshake acknowledgements not yet processed at the first clear()
     strays = 0
@@ -531,7 +579,11 @@ class C16Lane(Lane):
         return gen(seed, run, sub, tier)
 
     def execute(self, scn, guide=None):
-        return execute(scn, guide)
+        obs = None
+        if scn.get("readings") and scn.get("sub") == "clean":
+            from lanes.readings import Observer
+            obs = Observer(scn)
+        return execute(scn, guide, observer=obs)
 
     def nontrivial(self, scn, res):
         return res.get("completed_writes", 0) >= 1
@@ -549,7 +601,7 @@ class C16Lane(Lane):
                 ready = prev == "connect"
             elif op[0] == "disconnect":
                 ready = False
-            elif op[0] == "write" and not ready:
+            elif op[0] in ("write", "idle_error", "timeout") and not ready:
                 return False
             prev = op[0]
         return True
